@@ -36,7 +36,7 @@ PROPS = {
                         "async": dict(fields=["async_accept", "builderr", "level-plan", "driver-exception"], oracles=["borrow_panic", "async_once", "operation_panicked"])}),
     "C03": dict(suites={"plan": dict(fields=LAYOUT + ["tl", "tlorder"], oracles=["barriers", "tl_order"]),
                         "exec": dict(fields=XLAYOUT, oracles=["preds_done", "tl_last"])}),
-    "C04": dict(suites={"plan": dict(fields=LAYOUT + ["tl"], oracles=["exec_perm", "exec_perm(shape-sum)"]),
+    "C04": dict(suites={"plan": dict(fields=LAYOUT + ["tl"], oracles=["exec_perm", "exec_perm(shape-sum)", "par_once"]),
                         "exec": dict(fields=XLAYOUT, oracles=["once", "run_counts"]),
                         "async": dict(fields=["async_accept", "builderr", "level-plan", "driver-exception"], oracles=["borrow_panic", "async_once", "operation_panicked"])}),
     "C05": dict(nopar=True, suites={"exec": dict(nopar=True, fields=XLAYOUT, oracles=["par_eq_seq(world)", "par_eq_seq(states)", "unexpected_panic"])}),
@@ -75,7 +75,9 @@ PROPS = {
                                                "accessor_returned_before_all_finished", "thread_local_outside_wait",
                                                "thread_local_off_the_calling_thread", "thread_local_while_a_system_is_running",
                                                "operation_panicked", "async_once", "borrow_panic", "wait_runs_thread_locals_in_order",
-                                               "tl_panic_contained", "next_dispatch", "setup_visits"])}),
+                                               "tl_panic_contained", "next_dispatch", "setup_visits"]),
+                        # the async configurations of S8 (completion must not depend on who collects first: asyncpair, asyncdouble, ...)
+                        "pool": dict(fields=["pool-model", "builderr", "driver-exception"], oracles=["stage_serialised"])}),
     "C16": dict(suites={"parseq": dict(fields=["build", "reads", "writes", "setup", "accept", "driver-exception"],
                                        oracles=["conflict_accepted", "compatible_rejected", "setup_reaches_every_leaf", "unexpected_panic",
                                                 "once", "seq_order", "run_counts"])}),
